@@ -481,6 +481,32 @@ func discharge(ob *Obligation, tier string, timeoutS int) {
 			}
 		}
 	}
+	if tier != "quick" {
+		// thorough tier, stage 1t: z3-new and z3 on the plain query with a short budget; if both say unsat the
+		// obligation is decided with two solvers agreeing and no variant has to be built
+		type r2 struct {
+			sp     solverSpec
+			st     string
+			secs   float64
+		}
+		ch2 := make(chan r2, 2)
+		for _, sp := range solvers[:2] {
+			sp := sp
+			f := write(sp)
+			go func() {
+				st, _, secs := runSolver(context.Background(), sp, f, 6)
+				ch2 <- r2{sp, st, secs}
+			}()
+		}
+		a, b := <-ch2, <-ch2
+		if a.st == "unsat" && b.st == "unsat" {
+			res.Status, res.Solver, res.Seconds = "unsat", a.sp.name, a.secs
+			stats.mu.Lock()
+			stats.wins[a.sp.name]++
+			stats.mu.Unlock()
+			return
+		}
+	}
 	// stage 2a: the skolemised variant, instances only (see skolem.go) - a ground query, fast when it works
 	if skolemStage(ob, res, base, tier, false) {
 		return
@@ -852,6 +878,9 @@ func dischargeAll(obs []*Obligation, tier string, timeoutS, workers int) {
 					}
 				}
 				discharge(ob, tier, to)
+				// the variant (instances, sub-goals, their cached texts) is only needed while the obligation is being
+				// decided: thousands of them kept alive exhausted the memory of a thorough run
+				ob.Alt, ob.prep, ob.prepAnte = nil, nil, nil
 				if s := ob.Result.Status; s != "unsat" && s != "trivial" {
 					noteFuncFailure(ob.Func)
 				}
